@@ -54,6 +54,10 @@ def run(ctx, db, tier):
                          'constructed without dynamic memory: nothrow default constructible, not derived from the string-carrying std exception classes, no state of their own '
                          '(the IR rule stops at the exception machinery, whose own allocation is the runtime\'s)')
     C19.trailers(ctx, db) if False else storage_learns(ctx, db)
+    # "the frame of a callback awaiter disappears under a reusing storage policy": the reusing policies allocate only when the request exceeds the
+    # recorded capacity and record what they allocated - otherwise every awaited operation allocates again
+    C19._DB[0] = db
+    C19.reuse(ctx, db, 'C20.reusing-storage-learns')
 
 
 def reach_rule(ctx, db, flags):
